@@ -2,6 +2,7 @@ import FuModel.Proofs.ExecBatch
 import FuModel.Proofs.ExecLossless
 import FuModel.Proofs.ExecWalk
 import FuModel.Proofs.NoPrune
+import FuModel.Proofs.PruneEntered
 import FuModel.Proofs.ExecExact
 
 /-!
@@ -37,7 +38,7 @@ theorem C08_whole_walk (id : Nat) (dir : Bool) (cmd : Bytes) (fixed : List Bytes
     (c : Config) (m : FuModel.Find.Expr.M Prim) (start : Bytes) (root : Node Attr) (g : GS)
     (hall : m.AllP (Sole id dir cmd fixed)) (hone : m.weight wT ≤ 1) (hmem : M.multis m ≠ [])
     (hb : ∃ nb, newBatch g.budget cmd fixed = some nb)
-    (hwalk : ((refCfg c).depthFirst = false ∧ PruneOk (refCfg c) (evalEntry m start)) ∨
+    (hwalk : ((refCfg c).depthFirst = false ∧ PruneOkN (refCfg c) (evalEntry m start) [] 0 (if c.sorted then sortNode root else root)) ∨
              ((refCfg c).depthFirst = true ∧ ¬ HRootLink (refCfg c) (if c.sorted then sortNode root else root))) :
     let n := if c.sorted then sortNode root else root
     let r := processDir c m start (some root) g
@@ -86,7 +87,22 @@ theorem C08_whole_walk_pre (id : Nat) (dir : Bool) (cmd : Bytes) (fixed : List B
       L.Sublist ((visitsN (refCfg c) [] 0 n).map fun v => execPath dir (pathOf start v.ent.rpath)) ∧
       pendingOf id r.gs = [] :=
   whole_walk_lossless id dir cmd fixed c m start root g hall hone hmem hb
-    (Or.inl ⟨hpre, pruneOk_of_noPrune (refCfg c) m hnp start⟩)
+    (Or.inl ⟨hpre, pruneOkN_of_pruneOk _ _ (pruneOk_of_noPrune (refCfg c) m hnp start) [] 0 _⟩)
+/-- `C08_whole_walk` on a well-formed world (`wfNode`: what the driver's parser admits): in pre-order
+    there is no hypothesis on the expression either - `-prune` included (`pruneOkN_of_wf`) -/
+theorem C08_whole_walk_wf (id : Nat) (dir : Bool) (cmd : Bytes) (fixed : List Bytes)
+    (c : Config) (m : FuModel.Find.Expr.M Prim) (start : Bytes) (root : Node Attr) (g : GS)
+    (hall : m.AllP (Sole id dir cmd fixed)) (hone : m.weight wT ≤ 1) (hmem : M.multis m ≠ [])
+    (hb : ∃ nb, newBatch g.budget cmd fixed = some nb) (hpre : (refCfg c).depthFirst = false)
+    (hw : wfNode root = true) :
+    let n := if c.sorted then sortNode root else root
+    let r := processDir c m start (some root) g
+    ∃ L, delivered (cmd :: fixed) r.gs = handed (cmd :: fixed) id g ++ L ∧
+      L.Sublist ((visitsN (refCfg c) [] 0 n).map fun v => execPath dir (pathOf start v.ent.rpath)) ∧
+      pendingOf id r.gs = [] :=
+  whole_walk_lossless id dir cmd fixed c m start root g hall hone hmem hb
+    (Or.inl ⟨hpre, pruneOkN_of_wf (refCfg c) m start [] 0 _ (by split; exact wf_sortNode _ hw; exact hw)⟩)
+
 /-- **`find START TEST -exec CMD FIXED {} +` / `-execdir … +`, exactly** (statement and proof:
     `whole_walk_exact` in `Proofs/ExecExact.lean`): for every tree, follow mode, depth range and
     traversal order, every test that only looks at the entry and every state in which nothing has
